@@ -181,8 +181,13 @@ def cell_of(**kw):
 class Pair:
     """One provider + one relying party configured for one cell."""
 
-    def __init__(self, cell, clock=None, latency=0):
+    def __init__(self, cell, clock=None, latency=0, allowed_scopes=None):
         self.cell = cell
+        # what the operator allows this client: None = every scope value the provider knows, stated in the client
+        # record (the configuration of all flows that do not vary it); "unset" = the record has no allowed_scopes;
+        # a list = exactly these
+        self.allowed_scopes = allowed_scopes
+        self.token_requests = []        # bodies of the requests that reached the token endpoint, as sent
         self.latency = latency          # seconds the controlled clock advances while a token response travels
         self.token_times = []           # (provider clock when the token response was made, RP clock on arrival)
         self.secret = SECRET56 if cell.get("secret_len", 32) == 56 else SECRET32
@@ -313,6 +318,10 @@ class Pair:
             "redirect_uris": [(u, None) for u in (use.get("redirect_uris") or [])],
             "allowed_scopes": ["openid", "profile", "email", "address", "phone", "offline_access"],
         }
+        if self.allowed_scopes == "unset":
+            del rec["allowed_scopes"]
+        elif self.allowed_scopes is not None:
+            rec["allowed_scopes"] = list(self.allowed_scopes)
         for k in ("token_endpoint_auth_method", "token_endpoint_auth_signing_alg",
                   "id_token_signed_response_alg", "id_token_encrypted_response_alg", "id_token_encrypted_response_enc",
                   "userinfo_signed_response_alg", "userinfo_encrypted_response_alg", "userinfo_encrypted_response_enc",
@@ -378,6 +387,7 @@ class Pair:
                 return Resp(200, json.dumps(r["http_response"]), "application/json", url)
             if name == "token":
                 self.last_token_response = dict(r["response_args"]) if "response_args" in r else None
+                self.token_requests.append(data)
             out = ep.do_response(request=pr, **r)
             if name == "token" and self.clock is not None:
                 t_op = self.clock.now
@@ -458,10 +468,26 @@ def jose_headers(token):
     return None, None
 
 
+def wire_scope(body):
+    """the scope parameter of a request body as it was sent (urlencoded text or a mapping); None when absent"""
+    if isinstance(body, (bytes, bytearray)):
+        body = body.decode()
+    if isinstance(body, str):
+        v = parse_qs(body).get("scope")
+        return v[0].split(" ") if v else None
+    if isinstance(body, dict) or hasattr(body, "keys"):
+        v = body.get("scope") if "scope" in body else None
+        if isinstance(v, str):
+            return v.split(" ")
+        return list(v) if v is not None else None
+    return None
+
+
 def run_flow(pair, scope, claims=None, extra_args=None, do_refresh=True, do_introspect=True, user=USER,
-             refresh_pauses=(37, 41)):
+             refresh_pauses=(37, 41), refresh_scopes=None):
     """Drive one complete flow. Returns an observation dict; raises FlowFailure(stage, detail) when a step
-    does not complete."""
+    does not complete.  refresh_scopes: per refresh round, the scope the relying party's caller asks the refreshed
+    token to be valid for (None / missing = nothing asked, the relying party sends what it has on record)."""
     from idpyoidc.message.oauth2 import is_error_message
     c = pair.cell
     rp, server = pair.rp, pair.server
@@ -482,6 +508,8 @@ def run_flow(pair, scope, claims=None, extra_args=None, do_refresh=True, do_intr
         return r
 
     stage("provider_info", rp.do_provider_info)
+    # the scope values the provider advertises, as the relying party read them from the discovery document
+    obs["advertised_scopes"] = list((rp.get_context().provider_info or {}).get("scopes_supported") or [])
     stage("registration", rp.do_client_registration)
     rec = pair.register_static()
     obs["op_client_record"] = {k: v for k, v in rec.items() if k not in ("client_secret",)}
@@ -593,6 +621,7 @@ def run_flow(pair, scope, claims=None, extra_args=None, do_refresh=True, do_intr
                            "client_id": server.context.session_manager.decrypt_session_id(obs["session_id"])[1],
                            "user_id": server.context.session_manager.decrypt_session_id(obs["session_id"])[0],
                            "nonce": (g.authorization_request or {}).get("nonce"),
+                           "requested": list((g.authorization_request or {}).get("scope") or []),
                            "expires_at": g.expires_at}
         obs["op_tokens"] = [{"class": t.token_class, "value": t.value, "scope": list(t.scope or []),
                              "expires_at": t.expires_at, "issued_at": t.issued_at, "used": t.used,
@@ -613,8 +642,13 @@ def run_flow(pair, scope, claims=None, extra_args=None, do_refresh=True, do_intr
             if pair.clock is not None:
                 pair.clock.tick(pause)
             n_times = len(pair.token_times)
+            n_reqs = len(pair.token_requests)
+            asked = (list(refresh_scopes[rnd]) if refresh_scopes and rnd < len(refresh_scopes)
+                     and refresh_scopes[rnd] is not None else None)
 
             def refresh():
+                if asked is not None:
+                    return rp.refresh_access_token(st, scope=list(asked))
                 return rp.refresh_access_token(st)
             rr = stage("refresh", refresh)
             if rnd == 0:      # kept for the first round (older consumers)
@@ -622,7 +656,9 @@ def run_flow(pair, scope, claims=None, extra_args=None, do_refresh=True, do_intr
                 obs["token_response_refresh"] = dict(pair.last_token_response) if pair.last_token_response else None
             tr = dict(pair.last_token_response) if pair.last_token_response else {}
             new_at = tr.get("access_token")
-            rd = {"round": rnd + 1, "pause": pause, "token_response": tr,
+            sent = pair.token_requests[n_reqs:]
+            rd = {"round": rnd + 1, "pause": pause, "token_response": tr, "asked_scope": asked,
+                  "request_scope": wire_scope(sent[-1]) if sent else None, "n_token_requests": len(sent),
                   "token_times": list(pair.token_times[n_times:]),
                   "rp_state": {k: v for k, v in cst.get(st).items()},
                   "rp_response": rr.to_dict()}
